@@ -75,6 +75,9 @@ def run_property(prop, tier, seed):
     t0 = time.time()
     spec = F.PROPERTIES[prop]
     wd = P.workdir(prop)
+    import glob
+    for old in glob.glob(os.path.join(ROOT, "replays", prop + "-*.json")):
+        os.remove(old)              # replay files of earlier runs of this check
     known = load_known()
     evidence = {"property_id": prop, "tier": tier, "seed": seed, "level": spec["level"],
                 "coverage": {}, "assumptions": list(spec.get("assumptions", [])), "wall_s": 0.0, "violations": 0}
